@@ -55,7 +55,10 @@ impl<'a> Input for &'a [u8] { open spec fn bytes(&self) -> Seq<u8> { (*self)@ } 
 // ---------------------------------------------------------------------------------------------
 // specification vocabulary
 
-/// bit cursor `c` stands at absolute bit `p` of buffer `orig`
+/// bit cursor `c` stands at absolute bit `p` of buffer `orig`.
+/// Opaque: layout proofs only chain `at` facts through the combinator contracts (pure position arithmetic);
+/// the definition is revealed where bytes are actually touched (remaining_bits, binary payload copies).
+#[verifier::opaque]
 pub open spec fn at<I: Input>(orig: Seq<u8>, c: (I, usize), p: int) -> bool {
     &&& 0 <= p <= 8 * orig.len()
     &&& c.0.bytes() == orig.subrange(p / 8, orig.len() as int)
@@ -107,9 +110,6 @@ pub mod bits {
             &&& (r is Err ==> r->Err_0 is Error)
             &&& (r is Ok ==> r->Ok_0.0.1 < 8 && (r->Ok_0.0.1 == 0 || r->Ok_0.0.0.bytes().len() > 0) && r->Ok_0.0.0.bytes().len() <= i.0.bytes().len())
             &&& (r is Ok && count <= O::width() ==> 0 <= r->Ok_0.1.val() && (count <= 32 ==> r->Ok_0.1.val() < pow2(count)))
-            &&& (if 8 * i.0.bytes().len() - i.1 >= count {
-                    r is Ok && (count <= O::width() ==> r->Ok_0.1.val() == fld(i.0.bytes(), i.1 as int, count)) && at(i.0.bytes(), r->Ok_0.0, i.1 + count)
-                } else { r is Err })
             &&& forall|orig: Seq<u8>, p: int| #[trigger] at(orig, i, p) ==>
                 if 8 * orig.len() - p >= count {
                     r is Ok && (count <= O::width() ==> r->Ok_0.1.val() == fld(orig, p, count)) && at(orig, r->Ok_0.0, p + count)
